@@ -160,13 +160,19 @@ def _main():
     for line in stdin:
         try:
             message = loads(line)
-        except ValueError:
+        except (ValueError, RecursionError):
             stdout.write("Not JSON: {}\n\n".format(line.rstrip(b"\n")))
             continue
-        if REQUIRED_FIELDS - set(message.keys()):
+        if not isinstance(message, dict) or REQUIRED_FIELDS - set(message.keys()):
             stdout.write("Not an Eliot message: {}\n\n".format(line.rstrip(b"\n")))
             continue
-        result = formatter(message, args.local_timezone) + "\n"
+        try:
+            result = formatter(message, args.local_timezone) + "\n"
+        except (TypeError, ValueError, OverflowError, OSError):
+            # Has the required fields, but with values no Eliot message has
+            # (e.g. a task_level that is not a list, a non-numeric timestamp).
+            stdout.write("Not an Eliot message: {}\n\n".format(line.rstrip(b"\n")))
+            continue
         stdout.write(result)
 
 
